@@ -118,6 +118,62 @@ func ruleConstIndexBounded(p *Prog, r *Res, rule, pkg string) {
 func ruleGrownIndexBounded(p *Prog, r *Res, rule, pkg string, floor int) {
 	r.Rule(rule + ": a slice grown on demand is indexed only where the index has been brought below its length")
 	n, skipped := 0, []string{}
+	// growers: methods of the package that leave `param < len(recv.F)` behind on every way out (Set's growth moved
+	// into a helper)
+	type growerInfo struct {
+		field *types.Var
+		param int
+	}
+	growers := map[*types.Func]growerInfo{}
+	for _, h := range p.FnList {
+		if h.Short != pkg || h.Decl == nil || h.Body() == nil || h.Decl.Recv == nil || len(h.Decl.Recv.List) != 1 || len(h.Decl.Recv.List[0].Names) != 1 {
+			continue
+		}
+		hinfo := h.Pkg.TypesInfo
+		recv := hinfo.Defs[h.Decl.Recv.List[0].Names[0]]
+		hobj, _ := hinfo.Defs[h.Decl.Name].(*types.Func)
+		if recv == nil || hobj == nil {
+			continue
+		}
+		// appends to recv.F
+		var target *ast.SelectorExpr
+		inspectShallow(h.Body(), func(x ast.Node) bool {
+			as, ok := x.(*ast.AssignStmt)
+			if !ok || len(as.Lhs) != 1 || len(as.Rhs) != 1 {
+				return true
+			}
+			se, ok := ast.Unparen(as.Lhs[0]).(*ast.SelectorExpr)
+			if !ok || identObj(hinfo, se.X) != recv {
+				return true
+			}
+			if c, ok := ast.Unparen(as.Rhs[0]).(*ast.CallExpr); ok && isBuiltin(hinfo, c, "append") && len(c.Args) >= 1 && exprString(p.Fset, ast.Unparen(c.Args[0])) == exprString(p.Fset, se) {
+				target = se
+			}
+			return true
+		})
+		if target == nil {
+			continue
+		}
+		fld, _ := hinfo.Uses[target.Sel].(*types.Var)
+		if fld == nil {
+			continue
+		}
+		pi := 0
+		for _, pf := range h.Decl.Type.Params.List {
+			for _, nm := range pf.Names {
+				q, _ := hinfo.Defs[nm].(*types.Var)
+				if q != nil {
+					if bt, ok := q.Type().Underlying().(*types.Basic); ok && bt.Info()&types.IsInteger != 0 {
+						site := &boundSite{p: p, f: h, info: hinfo, fl: p.Flow(h), B: target, bStr: exprString(p.Fset, target)}
+						if site.ensuresOnExit(q, bnd{sym: true, mult: 1}) {
+							growers[hobj] = growerInfo{fld, pi}
+						}
+					}
+				}
+				pi++
+			}
+		}
+	}
 	for _, f := range p.FnList {
 		if f.Short != pkg || f.Body() == nil {
 			continue
@@ -142,6 +198,33 @@ func ruleGrownIndexBounded(p *Prog, r *Res, rule, pkg string, floor int) {
 				if exprString(p.Fset, ast.Unparen(c.Args[0])) == exprString(p.Fset, ast.Unparen(l)) {
 					grows = append(grows, grown{l, exprString(p.Fset, ast.Unparen(l))})
 				}
+			}
+			return true
+		})
+		// calls of growers: X.h(E) grows X.F
+		type growCall struct {
+			call *ast.CallExpr
+			str  string
+			arg  ast.Expr
+		}
+		var growCalls []growCall
+		inspectShallow(f.Body(), func(x ast.Node) bool {
+			c, ok := x.(*ast.CallExpr)
+			if !ok {
+				return true
+			}
+			fn := p.Callee(f.Pkg, c)
+			if fn == nil {
+				return true
+			}
+			gi, ok := growers[fn.Origin()]
+			if !ok || gi.param >= len(c.Args) {
+				return true
+			}
+			if se, ok := ast.Unparen(c.Fun).(*ast.SelectorExpr); ok {
+				str := exprString(p.Fset, ast.Unparen(se.X)) + "." + gi.field.Name()
+				growCalls = append(growCalls, growCall{c, str, c.Args[gi.param]})
+				grows = append(grows, grown{nil, str})
 			}
 			return true
 		})
@@ -191,6 +274,14 @@ func ruleGrownIndexBounded(p *Prog, r *Res, rule, pkg string, floor int) {
 				}
 				return true
 			})
+			for _, gc := range growCalls {
+				if gc.str == bStr {
+					if fm, ok := indexForm(info, gc.arg); ok && fm.v == form.v && fm.div == 1 {
+						compares = true
+						site.estCalls = append(site.estCalls, gc.call)
+					}
+				}
+			}
 			if !compares {
 				return true
 			}
